@@ -181,15 +181,17 @@ fn explore<E: Residual + Send + Sync + 'static>(eos: Arc<E>, spec: &Value) -> Va
             rc.lock().unwrap().insert(all);
             fc.lock().unwrap().insert(snap);
             if !bad.is_empty() {
-                let mut v = vc.lock().unwrap();
-                if v.len() < 5 {
-                    v.extend(bad.clone());
+                {
+                    let mut v = vc.lock().unwrap_or_else(|e| e.into_inner());
+                    if v.len() < 5 {
+                        v.extend(bad.clone());
+                    }
                 }
                 panic!("C11 oracle: {}", bad.join("; "));
             }
         });
     }));
-    let mut viol = violations.lock().unwrap().clone();
+    let mut viol = violations.lock().unwrap_or_else(|e| e.into_inner()).clone();
     if let Err(e) = result {
         let msg = e.downcast_ref::<String>().cloned().or_else(|| e.downcast_ref::<&str>().map(|s| s.to_string())).unwrap_or_else(|| "panic".into());
         if viol.is_empty() {
@@ -198,8 +200,8 @@ fn explore<E: Residual + Send + Sync + 'static>(eos: Arc<E>, spec: &Value) -> Va
     }
     json!({
         "executions": EXECS.load(Ordering::Relaxed),
-        "distinct_final_caches": finals.lock().unwrap().len(),
-        "distinct_return_vectors": rets.lock().unwrap().len(),
+        "distinct_final_caches": finals.lock().unwrap_or_else(|e| e.into_inner()).len(),
+        "distinct_return_vectors": rets.lock().unwrap_or_else(|e| e.into_inner()).len(),
         "violations": viol,
         "threads": threads.iter().map(|t| t.iter().map(|o| format!("{o:?}")).collect::<Vec<_>>()).collect::<Vec<_>>(),
         "preemption_bound": spec["preemption_bound"].clone(),
@@ -209,7 +211,7 @@ fn explore<E: Residual + Send + Sync + 'static>(eos: Arc<E>, spec: &Value) -> Va
 fn main() {
     let path = std::env::args().nth(1).expect("spec file");
     let spec: Value = serde_json::from_str(&std::fs::read_to_string(&path).expect("read spec")).expect("parse spec");
-    std::panic::set_hook(Box::new(|_| {}));
+    if std::env::var("FVC_PANIC").is_err() { std::panic::set_hook(Box::new(|_| {})); }
     let mut results = vec![];
     // one body per process: a failed loom execution leaves loom's scheduler state unusable
     let only: Option<usize> = std::env::args().nth(2).and_then(|s| s.parse().ok());
